@@ -274,6 +274,22 @@ func c02MatchAll(got []any, want []*c02Node) bool {
 	return true
 }
 
+// c02AnyHas: name is an element (JSON name or choice base name) of the type of at least one node
+func c02AnyHas(nodes []*c02Node, name string) bool {
+	for _, n := range nodes {
+		if n.md == nil {
+			continue
+		}
+		if n.md.Fields().ByJSONName(name) != nil {
+			return true
+		}
+		if n.md.FullName() == "google.fhir.r4.core.Reference" && name == "reference" {
+			return true
+		}
+	}
+	return false
+}
+
 func c02Expand(nodes []*c02Node, name string) []*c02Node {
 	var out []*c02Node
 	for _, n := range nodes {
@@ -341,7 +357,7 @@ func c02Shape(root *c02Node, names []string) string {
 func init() {
 	core.Register(&core.Check{
 		ID: "C02",
-		Rule: "for every resource of the schema-covering family (146 types, every field populated, each-choice covering, depth 2 quick / 3 thorough; typed/versioned/absolute/fragment/URN references, contained resources, Bundle entries, primitive ids and extensions, every date/time precision): the jsonformat JSON tree is walked in parallel with the proto to build the logical element tree; every name path of the tree and every prefix is evaluated un-indexed with and without the root type, with exactly one step indexed (each step, indexes 0, 1, len-1, len) and fully indexed down to every single element; results are compared with the tree by pointer identity (equal copy through Any-packed contained resources, string value for Reference.reference), in document order; for every primitive element that has a JSON value, `<fully indexed path>.value` must yield one System value equal to the JSON value (strings, codes, dates, dateTimes, instants and times textually - hence same instant, precision and offset -, numbers numerically, booleans by value); every other resource type as root gives empty; per message type, names of other types and proto-only names must fail with ErrInvalidField; non-trivial = distinct (resource, expression, outcome)",
+		Rule: "for every resource of the schema-covering family (146 types, every field populated, each-choice covering, depth 2 quick / 3 thorough; typed/versioned/absolute/fragment/URN references, contained resources, Bundle entries, primitive ids and extensions, every date/time precision): the jsonformat JSON tree is walked in parallel with the proto to build the logical element tree; every name path of the tree and every prefix is evaluated un-indexed with and without the root type, with exactly one step indexed (each step, indexes 0, 1, len-1, len) and fully indexed down to every single element; results are compared with the tree by pointer identity (equal copy through Any-packed contained resources, string value for Reference.reference), in document order; for every primitive element that has a JSON value, `<fully indexed path>.value` must yield one System value equal to the JSON value (strings, codes, dates, dateTimes, instants and times textually - hence same instant, precision and offset -, numbers numerically, booleans by value); every other resource type as root gives empty; per message type, names of other types and proto-only names must fail with ErrInvalidField (unless the name is an element of another item's type at the same path: mixed contained resources, Bundle entries), and so must the rest of an indexed path whose selected item's type lacks the next name; non-trivial = distinct (resource, expression, outcome)",
 		Assumptions: []string{"google/fhir jsonformat defines the FHIR JSON tree", "the parallel JSON/proto walk uses only proto descriptors (JSON names, oneof 'choice', ContainedResource, Any)"},
 		Subs: func(tier string) []core.Sub {
 			names := lib.ResourceTypeNames()
@@ -370,7 +386,7 @@ func init() {
 						r.Eval()
 						return res
 					}
-					check := func(spelling string, names []string, src string, want []*c02Node) {
+					check := func(spelling string, names []string, src string, want []*c02Node, wantErr bool) {
 						got := eval(src)
 						shape := c02Shape(root, names)
 						r.State(spelling + "|" + shape)
@@ -381,6 +397,13 @@ func init() {
 						}
 						if got.Panic != nil {
 							r.Fail(strings.Join([]string{"navigation", spelling, shape, got.Panic.Key()}, "|"), core.W{"type": tn, "variant": vi, "src": src})
+							return
+						}
+						if wantErr {
+							// the name is not an element of the type of any selected item
+							if got.CompileErr == nil && (got.Err == nil || !errors.Is(got.Err, fhirpath.ErrInvalidField)) {
+								r.Fail(strings.Join([]string{"navigation", spelling, shape, "want-invalid-field-got-" + got.Class()}, "|"), core.W{"type": tn, "variant": vi, "src": src, "got": core.Short(got.String(), 300)})
+							}
 							return
 						}
 						if !got.OK() {
@@ -404,8 +427,8 @@ func init() {
 							path += "." + c02Ident(nm)
 						}
 						if len(names) > 0 {
-							check("unindexed", names, path, nodes)
-							check("no-root", names, strings.TrimPrefix(path, tn+"."), nodes)
+							check("unindexed", names, path, nodes, false)
+							check("no-root", names, strings.TrimPrefix(path, tn+"."), nodes, false)
 							// exactly one step indexed
 							prefix := []*c02Node{root}
 							for s := range names {
@@ -423,13 +446,20 @@ func init() {
 										}
 									}
 									var want []*c02Node
+									wantErr := false
 									if idx < len(prefix) {
 										want = []*c02Node{prefix[idx]}
 										for _, nm := range names[s+1:] {
+											// with mixed types at the indexed step (contained resources, Bundle entries) the
+											// rest of the path may name an element that the selected item's type does not have
+											if len(want) > 0 && !c02AnyHas(want, nm) {
+												wantErr = true
+												break
+											}
 											want = c02Expand(want, nm)
 										}
 									}
-									check("one-index", names, src, want)
+									check("one-index", names, src, want, wantErr)
 								}
 							}
 						}
@@ -440,6 +470,9 @@ func init() {
 							}
 							seenMD[n.md.FullName()] = true
 							for _, bad := range c02BadNames(n.md) {
+								if c02AnyHas(nodes, bad) {
+									continue // an element of another item's type at this path (mixed contained resources / Bundle entries)
+								}
 								src := path + "." + bad
 								got := eval(src)
 								r.State("negative|" + string(n.md.Name()))
